@@ -325,7 +325,12 @@ def pg_cases(vd, rnd, nprng, proj, separable, method, antialias, argkind, kind, 
     if argkind in ("spacing", "region+spacing"):
         sp_e = (e - w) / (rnd.randint(4, 8) + rnd.choice([0.0, 0.2, -0.3]))
         sp_n = (n - s) / (rnd.randint(4, 8) + rnd.choice([0.0, 0.2, -0.3]))
-        kwargs["spacing"] = (sp_n, sp_e) if rnd.random() < 0.7 else min(sp_n, sp_e) * 1.5
+        scalar = min(sp_n, sp_e) * 1.5
+        # one spacing for both directions only when that keeps the output grid small
+        if rnd.random() < 0.3 and max((e - w) / scalar, (n - s) / scalar) <= 16:
+            kwargs["spacing"] = scalar
+        else:
+            kwargs["spacing"] = (sp_n, sp_e)
     if argkind.startswith("region"):
         fw, fe, fs, fn = [rnd.choice([-0.25, 0.0, 0.125, 0.3]) for _ in range(4)]
         kwargs["region"] = (w + fw * (e - w), e - fe * (e - w), s + fs * (n - s), n - fn * (n - s))
